@@ -26,6 +26,7 @@ import (
 type result struct {
 	Client       int    `json:"client"`
 	Seq          int    `json:"seq"`
+	Proto        string `json:"proto"`
 	Token        string `json:"token,omitempty"`
 	Desig        bool   `json:"designated,omitempty"`
 	KeepAlive    bool   `json:"keepalive"`
@@ -115,9 +116,9 @@ type h1conn struct {
 	afterSig bool
 }
 
-func dialH1(r *run) (xconn, error) {
+func dialH1(r *run, addr string) (xconn, error) {
 	after := r.isSignalled()
-	c, err := net.DialTimeout("tcp", r.addr, 3*time.Second)
+	c, err := net.DialTimeout("tcp", addr, 3*time.Second)
 	if err != nil {
 		return nil, err
 	}
@@ -224,9 +225,9 @@ type bconn struct {
 	afterSig bool
 }
 
-func dialBolt(r *run) (xconn, error) {
+func dialBolt(r *run, addr string) (xconn, error) {
 	after := r.isSignalled()
-	c, err := mesh.DialX("bolt", r.addr)
+	c, err := mesh.DialX("bolt", addr)
 	if err != nil {
 		return nil, err
 	}
@@ -392,6 +393,7 @@ func (s *spyConn) emit() {
 
 type h2conn struct {
 	r       *run
+	addr    string
 	tr      *http2.Transport
 	hc      *http.Client
 	mu      sync.Mutex
@@ -401,8 +403,8 @@ type h2conn struct {
 	noReuse bool
 }
 
-func dialH2(r *run) (xconn, error) {
-	x := &h2conn{r: r}
+func dialH2(r *run, addr string) (xconn, error) {
+	x := &h2conn{r: r, addr: addr}
 	x.tr = &http2.Transport{AllowHTTP: true, DisableCompression: true,
 		DialTLS: func(network, addr string, _ *tls.Config) (net.Conn, error) {
 			after := r.isSignalled()
@@ -483,7 +485,7 @@ func (x *h2conn) do(p *plan, h *hooks, res *result) {
 			res.ConnAfterSig = s.afterSig
 		}
 	}}
-	req, err := http.NewRequestWithContext(httptrace.WithClientTrace(context.Background(), trace), "POST", "http://"+x.r.addr+"/c11/"+p.Token, rd)
+	req, err := http.NewRequestWithContext(httptrace.WithClientTrace(context.Background(), trace), "POST", "http://"+x.addr+"/c11/"+p.Token, rd)
 	if err != nil {
 		res.Kind, res.Detail = "send-error", err.Error()
 		return
